@@ -7,7 +7,10 @@ fn epoch_to_timestamp<V: ValT>(v: &V) -> Result<Timestamp, Error<V>> {
     let val = match v.as_isize() {
         // saturate instead of wrapping around; the result is then out of range
         Some(i) => (i as i64).saturating_mul(1000000),
-        None => (v.try_as_f64()? * 1000000.0) as i64,
+        None => match v.try_as_f64()? {
+            f if f.is_nan() => return Err(Error::str(format_args!("cannot convert {v} to time"))),
+            f => (f * 1000000.0) as i64,
+        },
     };
     Timestamp::from_microsecond(val).map_err(Error::str)
 }
@@ -26,7 +29,7 @@ fn timestamp_to_epoch<V: ValT>(ts: Timestamp, frac: bool) -> ValR<V> {
 
 fn array_to_datetime<V: ValT>(v: &[V]) -> Option<Result<DateTime, jiff::Error>> {
     let [year, month, day, hour, min, sec]: &[V; 6] = v.get(..6)?.try_into().ok()?;
-    let sec = sec.as_f64()?;
+    let sec = sec.as_f64().filter(|sec| !sec.is_nan())?;
     let i8 = |v: &V| -> Option<i8> { v.as_isize()?.try_into().ok() };
     Some(DateTime::new(
         year.as_isize()?.try_into().ok()?,
@@ -70,12 +73,11 @@ pub fn from_iso8601<V: ValT>(s: &str) -> ValR<V> {
 
 /// Format a number as an ISO 8601 timestamp string.
 pub fn to_iso8601<V: ValT>(v: &V) -> Result<String, Error<V>> {
-    let ts = if let Some(i) = v.as_isize() {
-        Timestamp::from_second(i as i64)
-    } else {
-        Timestamp::from_microsecond((v.try_as_f64()? * 1e6) as i64)
+    let ts = match v.as_isize() {
+        Some(i) => Timestamp::from_second(i as i64).map_err(Error::str)?,
+        None => epoch_to_timestamp(v)?,
     };
-    Ok(ts.map_err(Error::str)?.to_string())
+    Ok(ts.to_string())
 }
 
 /// Format a date (either number or array) in a given timezone.
